@@ -9,6 +9,7 @@ package tmengine
 import (
 	"context"
 	"fmt"
+	"sort"
 
 	"github.com/gordian-engine/gordian/gcrypto"
 	"github.com/gordian-engine/gordian/tm/tmconsensus"
@@ -28,6 +29,7 @@ type vzDisk struct {
 	writes               int                 // completed writes, all stores
 	commits              map[uint64][]string // every hash ever saved as committed, per height, in order
 	commitCH             map[uint64]tmconsensus.CommittedHeader
+	commitDigest         map[uint64]string // what was saved, as a value (hash, proof round, signer key ids and signatures per target)
 	nhr                  [][4]uint64       // every network height/round ever set
 	fins                 map[uint64]string // finalization saved per height (hash|apphash|valhash)
 	finOverwriteAttempts int
@@ -39,7 +41,7 @@ func newVzDisk(hs tmconsensus.HashScheme) *vzDisk {
 		action: tmmemstore.NewActionStore(), commit: tmmemstore.NewCommittedHeaderStore(), fin: tmmemstore.NewFinalizationStore(),
 		mirror: tmmemstore.NewMirrorStore(), round: tmmemstore.NewRoundStore(), sm: tmmemstore.NewStateMachineStore(),
 		val:     tmmemstore.NewValidatorStore(hs),
-		commits: map[uint64][]string{}, commitCH: map[uint64]tmconsensus.CommittedHeader{}, fins: map[uint64]string{}, lock: map[uint64]string{},
+		commits: map[uint64][]string{}, commitCH: map[uint64]tmconsensus.CommittedHeader{}, commitDigest: map[uint64]string{}, fins: map[uint64]string{}, lock: map[uint64]string{},
 	}
 }
 
@@ -106,6 +108,7 @@ func (s vzCommittedHeaderStore) SaveCommittedHeader(ctx context.Context, ch tmco
 	if err == nil {
 		s.d.commits[ch.Header.Height] = append(s.d.commits[ch.Header.Height], string(ch.Header.Hash))
 		s.d.commitCH[ch.Header.Height] = ch
+		s.d.commitDigest[ch.Header.Height] = vzCommittedHeaderDigest(ch)
 		s.nd.w.onCommittedHeaderSaved(s.nd, ch)
 	}
 	return err
@@ -217,4 +220,21 @@ func (s vzValidatorStore) LoadVotePowers(ctx context.Context, h string) ([]uint6
 }
 func (s vzValidatorStore) LoadValidators(ctx context.Context, kh, ph string) ([]tmconsensus.Validator, error) {
 	return s.d.val.LoadValidators(ctx, kh, ph)
+}
+
+// vzCommittedHeaderDigest renders a committed header's identity and proof as a value.
+func vzCommittedHeaderDigest(ch tmconsensus.CommittedHeader) string {
+	var hashes []string
+	for h := range ch.Proof.Proofs {
+		hashes = append(hashes, h)
+	}
+	sort.Strings(hashes)
+	out := fmt.Sprintf("%x|r%d|%x", ch.Header.Hash, ch.Proof.Round, ch.Proof.PubKeyHash)
+	for _, h := range hashes {
+		out += fmt.Sprintf("|%x:", h)
+		for _, sg := range ch.Proof.Proofs[h] {
+			out += fmt.Sprintf("%x=%x,", sg.KeyID, sg.Sig)
+		}
+	}
+	return out
 }
